@@ -70,7 +70,11 @@ Definition osb_sim (o o' : option sbody) : Prop :=
   | _, _ => False
   end.
 
-Definition sfld_sim (f f' : sfld) : Prop := sprio f = sprio f' /\ osb_sim (sval f) (sval f').
+Definition ctrs_sim (cs cs' : list (ckind * sbody)) : Prop :=
+  Forall2 (fun kc kc' => fst kc = fst kc' /\ sb_sim (snd kc) (snd kc')) cs cs'.
+
+Definition sfld_sim (f f' : sfld) : Prop :=
+  sprio f = sprio f' /\ osb_sim (sval f) (sval f') /\ ctrs_sim (sctrs f) (sctrs f').
 
 Definition opt_sim (o o' : option sfld) : Prop :=
   match o, o' with
@@ -96,8 +100,24 @@ Qed.
 Lemma osb_sim_refl : forall o, osb_sim o o.
 Proof. destruct o; cbn; auto using sb_sim_refl. Qed.
 
+Lemma ctrs_sim_refl : forall cs, ctrs_sim cs cs.
+Proof. induction cs; constructor; auto using sb_sim_refl. Qed.
+
+Lemma ctrs_sim_sym : forall cs cs', ctrs_sim cs cs' -> ctrs_sim cs' cs.
+Proof. induction 1 as [|a b l l' [H1 H2] _ IH]; constructor; auto using sb_sim_sym. Qed.
+
+Lemma ctrs_sim_trans : forall c1 c2 c3, ctrs_sim c1 c2 -> ctrs_sim c2 c3 -> ctrs_sim c1 c3.
+Proof.
+  intros c1 c2 c3 H. revert c3. induction H as [|a b l l' [H1 H2] _ IH]; intros c3 H3; inversion H3 as [|b' c l2 l3 [H1' H2'] HF]; subst; constructor.
+  - split; [congruence | eapply sb_sim_trans; eassumption].
+  - apply IH. assumption.
+Qed.
+
+Lemma ctrs_sim_app : forall a a' b b', ctrs_sim a a' -> ctrs_sim b b' -> ctrs_sim (a ++ b) (a' ++ b').
+Proof. intros. apply Forall2_app; assumption. Qed.
+
 Lemma sfld_sim_refl : forall f, sfld_sim f f.
-Proof. intros f. split; [reflexivity | apply osb_sim_refl]. Qed.
+Proof. intros f. split; [reflexivity | split; [apply osb_sim_refl | apply ctrs_sim_refl]]. Qed.
 
 Lemma opt_sim_refl : forall o, opt_sim o o.
 Proof. destruct o; cbn; auto using sfld_sim_refl. Qed.
@@ -107,7 +127,7 @@ Proof. intros R k. apply opt_sim_refl. Qed.
 
 Lemma opt_sim_sym : forall o o', opt_sim o o' -> opt_sim o' o.
 Proof.
-  intros [f|] [f'|]; cbn; auto. intros [Hp Hv]. split; [auto|].
+  intros [f|] [f'|]; cbn; auto. intros (Hp & Hv & Hc). split; [auto|]. split; [|apply ctrs_sim_sym; exact Hc].
   destruct (sval f), (sval f'); cbn in *; auto using sb_sim_sym.
 Qed.
 
@@ -117,7 +137,7 @@ Proof. intros R R' H k. apply opt_sim_sym. apply H. Qed.
 Lemma opt_sim_trans : forall o1 o2 o3, opt_sim o1 o2 -> opt_sim o2 o3 -> opt_sim o1 o3.
 Proof.
   intros [f1|] [f2|] [f3|]; cbn; auto; try tauto.
-  intros [Hp Hv] [Hp' Hv']. split; [congruence|].
+  intros (Hp & Hv & Hc) (Hp' & Hv' & Hc'). split; [congruence|]. split; [|eapply ctrs_sim_trans; eassumption].
   destruct (sval f1), (sval f2), (sval f3); cbn in *; try tauto. eauto using sb_sim_trans.
 Qed.
 
@@ -133,14 +153,23 @@ Proof.
 Qed.
 
 (* the specification does not distinguish equivalent records *)
+Lemma map_seval_sim : forall cs cs' look look',
+  ctrs_sim cs cs' -> (forall x, look x = look' x) ->
+  map (fun kc => (fst kc, seval_body look (snd kc))) cs = map (fun kc => (fst kc, seval_body look' (snd kc))) cs'.
+Proof.
+  intros cs cs' look look' H Hl. induction H as [|a b l l' [H1 H2] _ IH]; [reflexivity|].
+  cbn [map]. rewrite H1, (seval_sim _ _ H2 look look' Hl), IH. reflexivity.
+Qed.
+
 Theorem sfield_sim : forall R R', srec_sim R R' -> forall fuel k, sfield fuel R k = sfield fuel R' k.
 Proof.
   intros R R' H. induction fuel as [|n IH]; intros k; cbn [sfield].
   - specialize (H k). destruct (slookup k R) as [f|], (slookup k R') as [f'|]; cbn in H; try tauto; try reflexivity.
-    destruct H as [_ Hv]. destruct (sval f) as [b|], (sval f') as [b'|]; cbn in Hv; try tauto; reflexivity.
+    destruct H as (_ & Hv & _). destruct (sval f) as [b|], (sval f') as [b'|]; cbn in Hv; try tauto; reflexivity.
   - specialize (H k). destruct (slookup k R) as [f|], (slookup k R') as [f'|]; cbn in H; try tauto; try reflexivity.
-    destruct H as [_ Hv]. destruct (sval f) as [b|], (sval f') as [b'|]; cbn in Hv; try tauto; try reflexivity.
-    apply seval_sim; [assumption|]. intros x. rewrite IH. reflexivity.
+    destruct H as (_ & Hv & Hc). destruct (sval f) as [b|], (sval f') as [b'|]; cbn in Hv; try tauto; try reflexivity.
+    assert (Hl : forall x, var_out (sfield n R x) = var_out (sfield n R' x)) by (intros x; rewrite IH; reflexivity).
+    cbv zeta. rewrite (seval_sim _ _ Hv _ _ Hl), (map_seval_sim _ _ _ _ Hc Hl). reflexivity.
 Qed.
 
 (* ------------------------------------------------------------------------- lookup *)
@@ -200,17 +229,18 @@ Qed.
 Lemma smerge_fld_sim : forall f1 f1' f2 f2',
   sfld_sim f1 f1' -> sfld_sim f2 f2' -> sfld_sim (smerge_fld f1 f2) (smerge_fld f1' f2').
 Proof.
-  intros f1 f1' f2 f2' [Hp1 Hv1] [Hp2 Hv2]. unfold smerge_fld.
+  intros f1 f1' f2 f2' (Hp1 & Hv1 & Hc1) (Hp2 & Hv2 & Hc2). unfold smerge_fld.
+  pose proof (ctrs_sim_app _ _ _ _ Hc1 Hc2) as Hc.
   destruct (sval f1) as [b1|] eqn:E1, (sval f1') as [b1'|] eqn:E1'; cbn in Hv1; try tauto;
   destruct (sval f2) as [b2|] eqn:E2, (sval f2') as [b2'|] eqn:E2'; cbn in Hv2; try tauto.
-  - assert (Hc : pcmp (sprio f1') (sprio f2') = pcmp (sprio f1) (sprio f2)) by congruence.
-    rewrite Hc. destruct (pcmp (sprio f1) (sprio f2)).
-    + split; cbn; [assumption|]. constructor; assumption.
-    + split; [assumption|]. rewrite E2, E2'. exact Hv2.
-    + split; [assumption|]. rewrite E1, E1'. exact Hv1.
-  - split; [assumption|]. rewrite E1, E1'. exact Hv1.
-  - split; [assumption|]. rewrite E2, E2'. exact Hv2.
-  - split; cbn; auto.
+  - assert (Hcmp : pcmp (sprio f1') (sprio f2') = pcmp (sprio f1) (sprio f2)) by congruence.
+    rewrite Hcmp. destruct (pcmp (sprio f1) (sprio f2)); (split; [cbn; assumption|]); (split; [cbn|cbn; exact Hc]).
+    + constructor; assumption.
+    + exact Hv2.
+    + exact Hv1.
+  - split; [cbn; assumption|]. split; [cbn; exact Hv1 | cbn; exact Hc].
+  - split; [cbn; assumption|]. split; [cbn; exact Hv2 | cbn; exact Hc].
+  - split; [reflexivity|]. split; [exact I | cbn; exact Hc].
 Qed.
 
 Lemma smerge_opt_sim : forall o1 o1' o2 o2',
